@@ -1455,6 +1455,33 @@ func (e *Engine) checkSuccessImplies(tx *Tx, rep *Report) {
 		e.viol([]string{"C14", "C05"}, "all-or-nothing", "C14:deposit-success-without-effects",
 			fmt.Sprintf("%d deposit(s) reported success with %d ok transfers, %d ok burns and %d module-sent MessageSent events", deposits, okCalls["Transfer"], okCalls["Burn"], moduleSent), e.caseOf(tx, ""))
 	}
+	// a burn is backed by the coins just pulled from a depositor: same denom as spelled, same amount
+	if deposits > 0 {
+		var pulled []chain.DepCall
+		for _, d := range rep.Deps {
+			if d.Seq < 0 || d.Err != "" {
+				continue
+			}
+			switch d.Method {
+			case "Transfer":
+				pulled = append(pulled, d)
+			case "Burn":
+				e.Rc.Cov.Assert("C05.burn-backed-by-transfer")
+				ok := false
+				for i, t := range pulled {
+					if t.Denom == d.Denom && t.Amount != nil && d.Amount != nil && t.Amount.Cmp(d.Amount) == 0 {
+						pulled = append(pulled[:i], pulled[i+1:]...)
+						ok = true
+						break
+					}
+				}
+				if !ok {
+					e.viol([]string{"C05"}, "backed-burn", "C05:burn-not-backed-by-transfer",
+						fmt.Sprintf("the module asked to burn %s%s, which is not what a depositor was debited in this transaction: %s", d.Amount, d.Denom, depSummary(rep.Deps)), e.caseOf(tx, ""))
+				}
+			}
+		}
+	}
 	if okCalls["Mint"] < moduleReceives {
 		e.viol([]string{"C14", "C04"}, "all-or-nothing", "C14:receive-success-without-mint",
 			fmt.Sprintf("%d module-addressed receive(s) reported success with %d ok mints", moduleReceives, okCalls["Mint"]), e.caseOf(tx, ""))
